@@ -245,6 +245,7 @@ type phase struct {
 	Seeds int  // seeded runs
 	Race  bool // run with the -race worker
 	Batch int
+	GMP   string // GOMAXPROCS of the worker (default 1; 4 with -race)
 }
 
 type plan struct {
@@ -764,7 +765,7 @@ func check(prop, tier string) int {
 			if from == 0 {
 				smp = 3
 			}
-			jobs = append(jobs, job{ph, Args{Scen: ph.Scen, Tier: tier, From: first + uint64(from), Count: cnt, Samples: smp}})
+			jobs = append(jobs, job{ph, Args{Scen: ph.Scen, Tier: tier, From: first + uint64(from), Count: cnt, Samples: smp, GMP: ph.GMP}})
 		}
 	}
 
